@@ -354,7 +354,10 @@ func runVecCache(walksPath, tablesPath, dir, outPath string, stress int) {
 							continue
 						}
 						got, err := search(vi, st)
-						want := 3 - len(ex)
+						want := 3 // five vectors in four documents: an unfiltered search always finds three
+						if st.Filter {
+							want = 3 - len(ex) // one vector each in the eligible documents 0, 1, 2
+						}
 						if err != nil || len(got) != want {
 							mu.Lock()
 							diffs = append(diffs, vcDiff{Step: -2, What: "concurrent search result", Got: js(got), Want: fmt.Sprint(want, " hits")})
